@@ -30,7 +30,7 @@ class C18(Profile):
     probes = ['newest_on_last_member', 'newest_on_first_member', 'same_version_on_two_members',
               'relationship_and_endpoint_on_different_members', 'nested_composite', 'self_loop', 'detached_member_excluded',
               'composite_filter_attached', 'related_to_nonempty', 'creator_found', 'creator_missing', 'env_facade',
-              'navigation_by_id_string', 'relationships_nonempty', 'source_only', 'target_only', 'static_memory_source', 'dict_kept_versions_federated']
+              'navigation_by_id_string', 'relationships_nonempty', 'source_only', 'target_only', 'static_memory_source', 'dict_kept_versions_federated', 'nested_composite_with_own_filter']
     rule = ('plans: 2-4 member sources (MemoryStore, FileSystemStore on the simulated disk, static MemorySource), a population of <=30 '
             'object versions and <=10 relationships partitioned over the members by the plan (overlaps, different versions of one id on '
             'different members), then 20-50 reads/navigation calls through composite / nested composite / Environment / plain store in a '
@@ -129,6 +129,10 @@ class C18(Profile):
                 tgt = pool[rng.randrange(len(pool))]
                 op['cfilter'] = rng.choice([['type', '=', tgt['type']], ['type', '!=', tgt['type']],
                                             ['id', '!=', C.mkid(tgt['type'], tgt['id_n'])]])
+            if rng.random() < 0.5 and kind in ('get', 'all_versions', 'query') and op['facade'] == 'nested':
+                tgt = pool[rng.randrange(len(pool))]
+                op['cfilter_inner'] = rng.choice([['type', '!=', tgt['type']], ['id', '!=', C.mkid(tgt['type'], tgt['id_n'])],
+                                                  ['type', '=', tgt['type']]])
             reads.append(op)
         # interleave a few late adds among the reads
         late = [ops.pop() for _ in range(min(len(ops) // 4, 4))]
@@ -268,7 +272,16 @@ class C18(Profile):
         if f == 'nested' and len(order) >= 2:
             inner = s.CompositeDataSource()
             inner.add_data_sources([self.source_of(m) for m in order[:-1]])
-            cds.add_data_sources([inner, self.source_of(order[-1])])
+            if op.get('cfilter_inner'):
+                # the nested composite has a filter of its own: it applies to ITS members only
+                inner.filters.add(s.Filter(*op['cfilter_inner']))
+                self.inner_members = set(order[:-1])
+                world.probe('nested_composite_with_own_filter')
+            # position of the nested composite among the outer members is a plan choice too
+            members = [inner, self.source_of(order[-1])]
+            if op.get('j', 0) % 2:
+                members.reverse()
+            cds.add_data_sources(members)
             world.probe('nested_composite')
         else:
             cds.add_data_sources([self.source_of(m) for m in order])
@@ -280,6 +293,7 @@ class C18(Profile):
     def op_read(self, sw, world, op):
         s = self.stix2
         pool = sw.pool
+        self.inner_members = set()
         target, mems = self.facade(world, op)
         if target is None:
             world.stat('op_skipped')
@@ -315,7 +329,15 @@ class C18(Profile):
         pool = sw.pool
         fac = op.get('facade', 'cds')
         passes = lambda d: FE.matches(d, ctrip)
-        vis = {key: d for key, d in union.items() if passes(d)}
+        if self.inner_members and op.get('cfilter_inner'):
+            itrip = [tuple(op['cfilter_inner'])]
+            vis = {}
+            for m in mems:
+                for key, d in self.models[m].items():
+                    if passes(d) and (m not in self.inner_members or FE.matches(d, itrip)):
+                        vis[key] = d
+        else:
+            vis = {key: d for key, d in union.items() if passes(d)}
         detail = dict(facade=fac, members=[sw.cfg['members'][m] for m in mems], cfilter=ctrip)
 
         def keys_of(objs):
